@@ -11,6 +11,9 @@ NA = {
 }
 
 CLAIMS = {
+ "C08": dict(design="§2 C08", technique="goal-directed inductive bounds prover on go/ssa (E-PROVE): index/slice/make/divisor/shift obligations, ranking functions for loops, callee panic preconditions refuted at call sites",
+   text="Decides, for every input string, that Graph6Decode and Sparse6Decode themselves never index out of range, never hit an explicit or callee panic, and terminate: every bounds obligation is discharged by the prover from dominating guards (polynomial normal form, division facts, phi-induction), every loop has a ranking function, every callee's explicit panic is refuted at the call site or its stated range contract is proved. Does not decide which malformed strings are rejected, nor the re-encode/decode clause.",
+   note="Integer arithmetic does not overflow for declared n <= 4096; AddEdge(i,j) is panic-free for 0 <= i,j < N (trusted contract); listed fmt/errors/strings/bits functions do not panic."),
  "C14": dict(design="§2 C14", technique="emission/consumption automata: encoder and decoder SSA CFGs as NFAs over wire tokens, language inclusion by subset construction; constant agreement of the varint pair",
    text="Decides that GobEncode and GobDecode agree on the kind (varint vs raw byte) and order of every field of every record, for every automaton shape: L(encoder) ⊆ L(decoder) over tokens extracted from the code itself; plus nine constant relations between encodeUint64 and decodeUint64 (threshold 127, prefix base, length cap, byte order). Does not decide behavioural identity of the decoded automaton.",
    note="Regular approximation: element counts are not compared; unrecognised output primitives are 'undecided' and fail."),
